@@ -42,7 +42,7 @@ def geometries(tier):
     for fl, tilt, wedge, chi, osign, sz, dist in itertools.product(flips, (0, 1), (0, 1), (0, 1), (1.0, -1.0), sizes, dists):
         out.append({"distance": dist, "y_center": 1000.3, "z_center": 1050.7, "y_size": sz[0], "z_size": sz[1],
                     "tilt_x": 0.004 * tilt, "tilt_y": -0.007 * tilt, "tilt_z": 0.011 * tilt,
-                    "o11": fl[0], "o12": fl[1], "o21": fl[2], "o22": fl[3], "wedge": 1.5 * wedge, "chi": -0.7 * chi,
+                    "o11": fl[0], "o12": fl[1], "o21": fl[2], "o22": fl[3], "wedge": (1.5 if tilt == (fl[0] == 1) else -1.5) * wedge, "chi": (-0.7 if osign > 0 else 0.7) * chi,
                     "omegasign": osign, "wavelength": 0.2846, "t_x": 0.0, "t_y": 0.0, "t_z": 0.0,
                     "cell__a": CELL[0], "cell__b": CELL[1], "cell__c": CELL[2], "cell_alpha": CELL[3], "cell_beta": CELL[4],
                     "cell_gamma": CELL[5], "cell_lattice_[P,A,B,C,I,F,R]": SYM, "fit_tolerance": 0.05})
@@ -59,6 +59,9 @@ def plan(tier, seed):
                 shards.append(("pipe", tier, gi, ng, omfloat))
         if gi % 4 == 0:
             shards.append(("pipe_nostart", tier, gi, 3, True))
+        if gi % 4 == 2:
+            for rep in (2, 3, 4):
+                shards.append(("pipe_repeat%d" % rep, tier, gi, 2, rep % 2 == 0))
         if gi % 4 == 1:
             for omfloat in (True, False):
                 shards.append(("pipe_cubic", tier, gi, 2 if tier == "quick" else 3, omfloat))
@@ -125,7 +128,23 @@ def write_inputs(wd, pars, peaks, start, gm, P, with_translation=True):
     return order
 
 
-def run_case(sh, mods, pars, ng, omfloat, case, passes=3, with_translation=True, cubic=False):
+def _makemap_repeated(opts, k):
+    """what scripts/makemap.py does, with refinepositions() called k times on the SAME refinegrains object (as the fitting loops of the
+    GUI and of fitgrain-style scripts do) before anything is saved"""
+    import ImageD11.refinegrains as RG
+    o = RG.refinegrains(intensity_tth_range=(0.0, 180.0), latticesymmetry=getattr(RG, opts.latticesymmetry), OmFloat=opts.omega_float, OmSlop=opts.omega_slop)
+    o.loadparameters(opts.parfile)
+    o.loadfiltered(opts.fltfile)
+    o.readubis(opts.ubifile)
+    o.tolerance = float(opts.tol)
+    o.generate_grains()
+    for _ in range(k):
+        o.refinepositions()
+    o.savegrains(opts.newubifile, sort_npks=opts.sort_npks)
+    o.scandata[opts.fltfile].writefile(opts.fltfile + ".new")
+
+
+def run_case(sh, mods, pars, ng, omfloat, case, passes=3, with_translation=True, cubic=False, repeat=0):
     tr, gm, P, cf_mod, makemap_mod = mods
     wd = os.path.join(WORK, "c09_%d" % os.getpid())
     shutil.rmtree(wd, ignore_errors=True)
@@ -152,8 +171,15 @@ def run_case(sh, mods, pars, ng, omfloat, case, passes=3, with_translation=True,
                                           omega_float=omfloat,
                                           omega_slop=0.25, tthrange=None, sort_npks=False)
                 with contextlib.redirect_stdout(io.StringIO()):
-                    makemap_mod.makemap(opts)
+                    if repeat:
+                        _makemap_repeated(opts, repeat)
+                    else:
+                        makemap_mod.makemap(opts)
                 ubifile = newubi
+                if repeat:
+                    first_flt = cf_mod.columnfile(os.path.join(wd, "p.flt.new"))
+                    start_correct = 0.0
+                    break
                 if it == 0:
                     first_flt = cf_mod.columnfile(os.path.join(wd, "p.flt.new"))
                     start_correct = float((first_flt.labels.astype(int) == peaks[:, 3].astype(int)).mean())
@@ -250,8 +276,10 @@ def run_shard(desc):
     sh = Shard()
     pars = geometries(tier)[gi]
     case = {"tier": tier, "geometry": gi, "ngrains": ng, "omega_float": omfloat, "seed": seed_of(), "start_has_translations": kind != "pipe_nostart",
-            "cubic_constraint": kind == "pipe_cubic", "pars": {k: v for k, v in pars.items() if not k.startswith("cell")}}
-    info = run_case(sh, _mods(), pars, ng, omfloat, case, with_translation=(kind != "pipe_nostart"), cubic=(kind == "pipe_cubic"))
+            "cubic_constraint": kind == "pipe_cubic", "refinepositions_calls_on_one_object": int(kind[11:]) if kind.startswith("pipe_repeat") else 0,
+            "pars": {k: v for k, v in pars.items() if not k.startswith("cell")}}
+    info = run_case(sh, _mods(), pars, ng, omfloat, case, with_translation=(kind != "pipe_nostart"), cubic=(kind == "pipe_cubic"),
+                    repeat=case["refinepositions_calls_on_one_object"])
     sh.sample(dict(case, **{k: v for k, v in (info or {}).items()}), limit=1)
     return sh
 
@@ -261,5 +289,5 @@ def replay(case):
     sh = Shard()
     pars = geometries(case["tier"])[case["geometry"]]
     run_case(sh, _mods(), pars, case["ngrains"], case["omega_float"], case, with_translation=case.get("start_has_translations", True),
-             cubic=case.get("cubic_constraint", False))
+             cubic=case.get("cubic_constraint", False), repeat=case.get("refinepositions_calls_on_one_object", 0))
     return (not sh.violations), {"violations": sh.violations[:3]}
